@@ -24,6 +24,7 @@ mod tests;
 /// Verification hook (off unless built with `--cfg h3_verif`): exposes the private
 /// prefixed-integer and string-literal codecs to an external differential monitor.
 #[cfg(h3_verif)]
+#[allow(unused_imports)]
 pub mod verif_codec {
     pub mod prefix_int {
         pub use crate::qpack::prefix_int::{decode, encode, Error};
@@ -36,6 +37,7 @@ pub mod verif_codec {
 /// Verification hook (off unless built with `--cfg h3_verif`): exposes the stateful
 /// (dynamic table) encoder and decoder, which are otherwise only reachable under `cfg(test)`.
 #[cfg(h3_verif)]
+#[allow(unused_imports)]
 pub mod verif_stateful {
     pub use crate::qpack::decoder::{ack_header, stream_canceled, Decoder};
     pub use crate::qpack::dynamic::{DynamicTable, Error as DynamicTableError};
